@@ -1,7 +1,6 @@
 package core
 
 import (
-	"strings"
 	"bytes"
 	"encoding/binary"
 	"encoding/json"
@@ -10,6 +9,7 @@ import (
 	"os"
 	"path/filepath"
 	"sort"
+	"strings"
 	"sync"
 	"time"
 
